@@ -13,6 +13,7 @@ extern crate alloc;
 mod shared;
 
 mod common;
+mod fuzz;
 mod strt;
 mod dur;
 mod c01;
@@ -75,6 +76,9 @@ fn dispatch(driver: &str, a: &Args) {
         "c15" => dur::run(&a),
         "c16" => strt::run(&a),
         "probe" => strt::probe(&a),
+        "probetzif" => strt::probetzif(&a),
+        "probetz" => strt::probetz(&a),
+        "c17" => fuzz::run(&a),
         "c19replay" => c19::run_replay(&a),
         "c20" => c20::run(&a),
         "c20fixed" => c20::run_fixed(&a),
